@@ -179,3 +179,26 @@ func TestSelectTimer(t *testing.T) {
 		t.Fatal("timer exploration wrong")
 	}
 }
+
+// recursive read locking deadlocks when a writer arrives in between (sync.RWMutex semantics)
+func TestRecursiveRLock(t *testing.T) {
+	e := &Explorer{MaxBound: 2, Body: func(x *Exec) {
+		var mu RWMutex
+		var wg WaitGroup
+		wg.Add(2)
+		Go(func() { defer wg.Done(); mu.RLock(); mu.RLock(); mu.RUnlock(); mu.RUnlock() })
+		Go(func() { defer wg.Done(); mu.Lock(); mu.Unlock() })
+		wg.Wait()
+	}}
+	e.Run()
+	t.Logf("execs=%d failures=%v", e.Execs, e.Failures)
+	found := false
+	for k := range e.Failures {
+		if len(k) > 8 && k[:8] == "deadlock" {
+			found = true
+		}
+	}
+	if !found {
+		t.Fatal("recursive read lock deadlock not found")
+	}
+}
